@@ -82,8 +82,11 @@ MUTATIONS = [
 
         return __class__(text, escape=False)'''),
  # ---- groups (C08) -----------------------------------------------------------------------------------------------
- dict(id="g-capture-nc-keeps-colon", kind="break", props=["C08"], file=PRE,
+ # '((?:b))' for '(b)': one capturing group, same spans and groups - C08 is semantic, so this edit is harmless for it
+ dict(id="g-capture-nc-keeps-colon", kind="harmless", props=["C08"], file=PRE,
       old="                pattern = self.__pattern.replace('?:', '', 1)", new="                pattern = '(' + self.__pattern + ')'"),
+ dict(id="g-capture-nc-strips-every-colon", kind="break", props=["C08"], file=PRE,
+      old="                pattern = self.__pattern.replace('?:', '', 1)", new="                pattern = self.__pattern.replace('?:', '')"),
  dict(id="g-sub-count-removed", kind="break", props=["C08"], file=PRE,
       old='''f'(?P<{name}>', pattern, count=1)''', new='''f'(?P<{name}>', pattern)'''),
  # ---- assertions (C10, C05) --------------------------------------------------------------------------------------
@@ -153,6 +156,21 @@ MUTATIONS = [
  dict(id="e-word-min-ignored", kind="break", props=["C17"], file=ESS,
       old="        pre = pre.at_least_at_most(n=min_chars, m=max_chars)\n        super().__init__(pre, is_extensible)\n\n\nclass WordContains",
       new="        pre = pre.at_least_at_most(n=1, m=max_chars)\n        super().__init__(pre, is_extensible)\n\n\nclass WordContains"),
+ # ---- meta: argument validation (G10 contracts: for ALL integers, not the sampled invalid tuples) --------------------
+ dict(id="v-numeral-nmax-equal-rejected", kind="break", props=["C17"], file=ESS,
+      old="        elif n_max < n_min:", new="        elif n_max <= n_min:"),
+ # equivalent mutant: with min_chars >= 1 established, max_chars == 0 is still rejected by min_chars > max_chars
+ dict(id="v-word-max-zero-accepted", kind="harmless", props=["C17"], file=ESS,
+      old="        elif max_chars < 1:", new="        elif max_chars < 0:"),
+ dict(id="v-date-format-case-folded", kind="break", props=["C19"], file=ESS,
+      old="            if format not in date_formats:", new="            if format.lower() not in date_formats:"),
+ dict(id="v-decimal-min-zero-accepted", kind="break", props=["C16"], file=ESS,
+      old="        elif min_decimal < 1:", new="        elif min_decimal < 0:"),
+ dict(id="v-unsigned-integer-bounds-swapped", kind="break", props=["C15"], file=ESS,
+      old="        sign = _pre.Pregex().not_preceded_by(_op.Either('+', '-'))\n        super().__init__(sign, start, end, is_extensible)",
+      new="        sign = _pre.Pregex().not_preceded_by(_op.Either('+', '-'))\n        super().__init__(sign, end, start, is_extensible)"),
+ dict(id="h-numeral-validation-reordered", kind="harmless", props=["C17"], file=ESS,
+      old="        if base < 2 or base > 16:", new="        if base > 16 or base < 2:"),
  # ---- history (C20) ----------------------------------------------------------------------------------------------
  dict(id="s-concat-caches-on-self", kind="break", props=["C20"], file=PRE,
       old="        pattern = self._concat_conditional_group()\n        pre = pre._concat_conditional_group()",
